@@ -146,6 +146,11 @@ def _multi(draw, max_rows):
             used.add(nm)
             kind = draw(st.sampled_from(KINDS))
             cols.append({"name": nm, "kind": kind, "vals": draw(gen.values(kind, on))})
+        if on == 1 and n >= 2 and draw(st.integers(0, 2)) == 0:
+            # a one-row operand whose object cell is itself a sequence (as regex.split / findall leave them): broadcast
+            # means every row gets that list, also when its length happens to equal the receiver's row count
+            m = n if draw(st.booleans()) else draw(st.integers(0, 3))
+            cols.append({"name": "e9", "kind": "ol", "vals": [[["red", "green", "blue", "x", "y"][i % 5] for i in range(m)]]})
         others.append({"n": on, "cols": cols, "norid": True})
     if op == "update" and n >= 2 and draw(st.integers(0, 5)) == 0:
         # every column of the receiver (it carries no row id here) is replaced by a one-row frame
